@@ -244,6 +244,22 @@ def run(ctx: Ctx, tier: str) -> Result:
             res.fail(Finding("C11.KEYS", TRIG + "." + b, k, f.loc(n),
                              "%s.%s reads '%s' from the action config but %s never writes it: the tracepoint argument '%s' has no effect" % (f.cls.name, f.name, k, b, k)))
     res.floor("action-context config reads", nreads, 8)
+    # a key copied after the action config was built (config[K] = args[K]) is copied exactly when the argument is present
+    for qn, lst in sorted(writers.items()):
+        for bf, call, keys in lst:
+            for n in t.nodes_in(bf, ast.Assign):
+                tg_ = n.targets[0]
+                if not (isinstance(tg_, ast.Subscript) and isinstance(n.value, ast.Subscript) and isinstance(n.value.value, ast.Name)
+                        and n.value.value.id in bf.params and norm(tg_.slice) == norm(n.value.slice)):
+                    continue
+                conds = [(norm(c), pol) for c, pol in paths.enclosing_conditions(p, n, bf)]
+                want = "%s in %s" % (norm(tg_.slice), n.value.value.id)
+                extra = [c for c in conds if c != (want, True)]
+                if (want, True) in conds and not extra:
+                    res.ok("C11.KEYS", {"copied when present": norm(n)})
+                else:
+                    res.fail(Finding("C11.KEYS", bf.qname, n, bf.loc(n), "`%s` is copied into the action config %s, not exactly when the argument is given: the argument has no effect, "
+                                     "or a tracepoint without it cannot be built" % (norm(tg_.slice), "when " + " and ".join(("" if pol else "not ") + c for c, pol in conds) if conds else "unconditionally")))
 
     # ---------------- KEEP: tracepoints on the same location keep all of their actions (rules shared with C03)
     from . import c03
